@@ -1,2 +1,12 @@
+-- Root of the library: everything `lake build` must check. One line per module family.
 import EmbitModel.Basic.Bytes
 import EmbitModel.Basic.Compact
+import EmbitModel.Basic.Parse
+import EmbitModel.Crypto.Sha256
+import EmbitModel.Crypto.Sha512
+import EmbitModel.Crypto.Hmac
+import EmbitModel.Crypto.Ripemd160
+import EmbitModel.Crypto.Secp256k1
+import EmbitModel.Model.Tx
+import EmbitModel.Spec.Wire
+import EmbitModel.Props.C03
